@@ -1088,6 +1088,12 @@ func (c *Ctx) walkFields(st *State, base Place, index []int, pos token.Pos) Plac
 		// auto-deref pointers
 		if pt, ok := cur.ty.Underlying().(*types.Pointer); ok {
 			pv := c.readPlace(st, cur)
+			if in, isIn := pv.(Interior); isIn && in.Prefix != "" {
+				// tm := &bm.timestamps; tm.min - a field of the struct that lives inside the object: same object, the
+				// field's own family prefix
+				cur = Place{heap: true, prefix: in.Prefix, ref: in.Ref, idx: in.Idx, ty: pt.Elem()}
+				goto fields
+			}
 			p, isPtr := pv.(Ptr)
 			if !isPtr {
 				if s, isS := pv.(Scalar); isS {
@@ -1099,6 +1105,7 @@ func (c *Ctx) walkFields(st *State, base Place, index []int, pos token.Pos) Plac
 			c.oblige(st, "nil", "deref", pos, Not(Eq(p.Ref, Term{"0", SInt})), "nil pointer dereference")
 			cur = Place{heap: true, prefix: c.ptrPrefix(p), ref: p.Ref, idx: p.Idx, ty: pt.Elem()}
 		}
+	fields:
 		stt, ok := cur.ty.Underlying().(*types.Struct)
 		if !ok {
 			unsupp("field selection on non-struct %s at %s", cur.ty, c.posStr(pos))
